@@ -118,3 +118,132 @@ def check_sat(hyps, timeout_s=5.0):
         s.add(h)
     r = s.check()
     return "sat" if r == z3.sat else "unsat" if r == z3.unsat else "unknown"
+
+
+# ------------------------------------------------------------------ text based discharge (separate processes)
+def obligation_text(ob):
+    """SMT-LIB text of an obligation (hypotheses + negated goal), with named constants for the inputs."""
+    s = z3.Solver()
+    for h in ob.hyps:
+        s.add(h)
+    s.add(z3.Not(ob.goal))
+    names = {}
+    for k, v in (ob.inputs or {}).items():
+        if not hasattr(v, "z"):
+            continue
+        if z3.is_const(v.z) and v.z.decl().kind() == z3.Z3_OP_UNINTERPRETED:
+            names[k] = v.z.decl().name()
+        else:
+            c = z3.Const("inp!" + k, v.z.sort())
+            s.add(c == v.z)
+            names[k] = "inp!" + k
+    return s.to_smt2(), names
+
+
+def hyps_text(hyps):
+    s = z3.Solver()
+    for h in hyps:
+        s.add(h)
+    return s.to_smt2()
+
+
+def _value_py(m, d):
+    v = m[d]
+    try:
+        if z3.is_int_value(v):
+            return v.as_long()
+        if z3.is_true(v):
+            return True
+        if z3.is_false(v):
+            return False
+        if z3.is_seq(v):
+            c = z3.Const(d.name(), v.sort())
+            n = m.eval(z3.Length(v), model_completion=True)
+            if z3.is_int_value(n) and n.as_long() <= 64:
+                out = []
+                for i in range(n.as_long()):
+                    e = m.eval(v[i], model_completion=True)
+                    out.append(e.as_long() if z3.is_int_value(e) else str(e))
+                return out
+        return str(v)
+    except Exception:
+        return str(v)
+
+
+def _run_text(txt, budget, want=None):
+    ctx = z3.Context()
+    s = z3.Solver(ctx=ctx)
+    s.set("timeout", int(budget * 1000))
+    try:
+        s.from_string(txt)
+        r = s.check()
+    except z3.Z3Exception as e:
+        return "unknown", None, str(e)[:200]
+    if r == z3.unsat:
+        return "unsat", None, ""
+    if r == z3.sat:
+        model = {}
+        try:
+            m = s.model()
+            byname = {d.name(): d for d in m.decls()}
+            for k, nm in (want or {}).items():
+                if nm in byname:
+                    model[k] = _value_py(m, byname[nm])
+            return "sat", {"model": model, "model_txt": str(m)[:1500]}, ""
+        except Exception as e:
+            return "sat", {"model": {}, "model_txt": f"<model unavailable: {e}>"}, ""
+    try:
+        why = s.reason_unknown()
+    except Exception:
+        why = ""
+    return "unknown", None, why
+
+
+def discharge_text(item):
+    """item: dict(id, smt2, names, timeout, trivial).  Portfolio: z3 short, cvc5, z3 long."""
+    t0 = time.time()
+    if item.get("trivial"):
+        return {"status": "unsat", "solver": "simplifier", "seconds": 0.0}
+    T = item["timeout"]
+    first = min(3.0, T)
+    st, extra, why = _run_text(item["smt2"], first, item.get("names"))
+    if st == "unsat":
+        return {"status": "unsat", "solver": "z3-5.1.0", "seconds": round(time.time() - t0, 3)}
+    if st == "sat":
+        return dict({"status": "sat", "solver": "z3-5.1.0", "seconds": round(time.time() - t0, 3)}, **extra)
+    res = {"status": "unknown", "solver": "z3-5.1.0", "reason": why}
+    try:
+        txt = re.sub(r"\(\(_ ([A-Za-z_][\w!]*) 0\)", r"(\1", item["smt2"])
+        txt = txt.replace("(set-info :status unknown)", "").replace("seq.nth_i", "seq.nth").replace("seq.nth_u", "seq.nth")
+        txt = "(set-logic ALL)\n" + txt
+        with tempfile.NamedTemporaryFile("w", suffix=".smt2", delete=False) as f:
+            f.write(txt)
+            path = f.name
+        try:
+            budget = min(T, 10.0)
+            p = subprocess.run([CVC5, "--strings-exp", f"--tlimit={int(budget * 1000)}", path],
+                               capture_output=True, text=True, timeout=budget + 5)
+            out = p.stdout.strip().split("\n")[0] if p.stdout.strip() else ""
+        finally:
+            os.unlink(path)
+        if out == "unsat":
+            return {"status": "unsat", "solver": "cvc5-1.0.3", "seconds": round(time.time() - t0, 3)}
+        res["cvc5"] = out or p.stderr.strip()[:200]
+    except subprocess.TimeoutExpired:
+        res["cvc5"] = "timeout"
+    except Exception as e:
+        res["cvc5"] = f"error {e}"
+    if T > first:
+        st, extra, why = _run_text(item["smt2"], T, item.get("names"))
+        if st == "unsat":
+            return {"status": "unsat", "solver": "z3-5.1.0", "seconds": round(time.time() - t0, 3)}
+        if st == "sat":
+            return dict({"status": "sat", "solver": "z3-5.1.0", "seconds": round(time.time() - t0, 3)}, **extra)
+        res["reason"] = why
+    res["seconds"] = round(time.time() - t0, 3)
+    return res
+
+
+def check_sat_text(txt, timeout_s=3.0):
+    st, _, _ = _run_text(txt, timeout_s)
+    return st
